@@ -143,4 +143,66 @@ theorem census_generated_window5 (A B : Img) (r c : Int) :
 /-- non-vacuity: centre 5, neighbours above it at offsets (0,1) and (2,2) of a 3×3 window: bits 7 and 0 -/
 example : KernelsMcArr.censusTransformPx 3 (fun r c => if (r, c) = (0, 1) ∨ (r, c) = (2, 2) then 9 else 5) 0 0 = 129 := by decide +kernel
 
+/-! ## (2) compute_mean_raster -/
+
+/-- cumulative sum of a raster with a leading zero: the prefix sum -/
+theorem prefix_zero (g : Int → ℚ) (n : Nat) :
+    sumZ (0 : ℚ) (fun k => if k = 0 then 0 else g (k - 1)) 0 (n + 1) = sumZ (0 : ℚ) g 0 n := by
+  induction n with
+  | zero => simp [sumZ]
+  | succ n ih =>
+    rw [sumZ, ih, sumZ]
+    have h : ¬ ((0 : Int) + ((n + 1 : Nat) : Int) = 0) := by omega
+    rw [if_neg h]
+    congr 2
+    push_cast
+    ring
+
+theorem cum_row (f : Int → Int → ℚ) (i j : Int) (hi : 0 ≤ i) :
+    KernelsMcArr.cumsum0 (KernelsMcArr.zeroRow f) i j = sumZ (0 : ℚ) (fun i' => f i' j) 0 i.toNat := by
+  obtain ⟨n, rfl⟩ := Int.eq_ofNat_of_zero_le hi
+  unfold KernelsMcArr.cumsum0 KernelsMcArr.zeroRow
+  have e : ((n : Int) + 1).toNat = n + 1 := by omega
+  rw [e]
+  simpa using prefix_zero (fun i' => f i' j) n
+
+theorem cum_col (g : Int → Int → ℚ) (i j : Int) (hj : 0 ≤ j) :
+    KernelsMcArr.cumsum1 (KernelsMcArr.zeroCol g) i j = sumZ (0 : ℚ) (fun j' => g i j') 0 j.toNat := by
+  obtain ⟨n, rfl⟩ := Int.eq_ofNat_of_zero_le hj
+  unfold KernelsMcArr.cumsum1 KernelsMcArr.zeroCol
+  have e : ((n : Int) + 1).toNat = n + 1 := by omega
+  rw [e]
+  simpa using prefix_zero (fun j' => g i j') n
+
+/-- **`compute_mean_raster`, regenerated statement by statement, is the model's `meanRaster`** (any raster, any window size,
+    any cell of the result) -/
+theorem meanRasterPx_eq_model (w : Nat) (f : Int → Int → ℚ) (i j : Int) (hi : 0 ≤ i) (hj : 0 ≤ j) :
+    KernelsMcArr.meanRasterPx w f i j = meanRaster w f i j := by
+  unfold KernelsMcArr.meanRasterPx meanRaster KernelsMcArr.meanDen
+  simp only [KernelsMcArr.diff1]
+  rw [cum_col _ i (j + w) (by omega), cum_col _ i j hj]
+  have hrow : ∀ j' : Int, KernelsMcArr.diff0 w (KernelsMcArr.cumsum0 (KernelsMcArr.zeroRow f)) i j'
+      = sumZ (0 : ℚ) (fun i' => f i' j') 0 (i + w).toNat - sumZ (0 : ℚ) (fun i' => f i' j') 0 i.toNat := by
+    intro j'
+    unfold KernelsMcArr.diff0
+    rw [cum_row f (i + w) j' (by omega), cum_row f i j' hi]
+  simp only [hrow]
+  push_cast
+  rfl
+
+/-- … hence the block mean `Σ_{window} f / w²`: the statement C12's `std_intensity` (same two functions) can reuse -/
+theorem meanRasterPx_eq_mean (w : Nat) (f : Int → Int → ℚ) (i j : Int) (hi : 0 ≤ i) (hj : 0 ≤ j) :
+    KernelsMcArr.meanRasterPx w f i j = C02.mean w w f i j := by
+  rw [meanRasterPx_eq_model w f i j hi hj]; exact C02.meanRaster_eq_mean w f i j hi hj
+
+/-! `compute_std_raster` on top: radicand and the 1e-15 rule -/
+
+/-- the radicand of `compute_std_raster` computed from the REGENERATED mean rasters is the model's `varRaster`; written so
+    that it holds whether or not the source takes `abs` of `mean_power_two` (it is never negative) -/
+theorem stdRadicandPx_eq_model (w : Nat) (f : Int → Int → ℚ) (i j : Int) (hi : 0 ≤ i) (hj : 0 ≤ j) :
+    varRaster w f i j = C02KernelsMcCost.stdRadicand (KernelsMcArr.meanRasterPx w (fun r c => f r c * f r c) i j)
+      (KernelsMcArr.meanRasterPx w f i j) := by
+  rw [meanRasterPx_eq_model w _ i j hi hj, meanRasterPx_eq_model w f i j hi hj]
+  exact C02KernelsMcCost.stdRadicand_eq_model w f i j
+
 end Pandora.C02KernelsMcArr
